@@ -53,6 +53,15 @@ def r_term_table(ck: Checker) -> None:
                 v = v.args[1]
             got.add(unparse(it.expand(v, st)).replace(f"{t}.symbol", "symbol") if v is not None else "None")
         ck.add(f"constant of type {styp.split('.')[1]}", got == {want}, func, func.node, f"maps to {sorted(got)}; required {want}", "strings and #inf/#sup are not integers: relations over them must not be solved")
+    s2a = ck.func(f"{G}.sympy2ast")
+    its2 = ck.interp(s2a)
+    ints = [c for c in calls_in(s2a, lambda c: isinstance(c.func, ast.Name) and c.func.id == "int" and len(c.args) == 1 and unparse(c.args[0]) == s2a.params()[1])]
+    ck.need(len(ints) >= 1, "sympy2ast converts integer constants with int(expr)")
+    e_ = s2a.params()[1]
+    for c in ints:
+        oki = any(its2.holds(c, k) for k in (f"{e_}.func in (Integer, Zero, NegativeOne, One)", f"isinstance({e_}, Integer)", f"{e_}.is_Integer", f"{e_}.is_integer"))
+        ck.add("a sympy constant is converted with int() only if it is an integer", oki, s2a, c, f"`{short(unparse(enclosing_stmt(s2a, c)), 90)}` dominated by an integer test: {oki}",
+               "solving `2*X = Y` gives the rational coefficient 1/2: int() truncates it to 0 instead of refusing the simplification (division is solved away)")
     tab = ck.prg.klass(G)
     d = [n for n in tab.node.body if isinstance(n, ast.Assign) and unparse(n.targets[0]) == "ast2sympy_op"]
     ref = {"Equal": "Equality", "GreaterEqual": "GreaterThan", "LessEqual": "LessThan", "LessThan": "StrictLessThan", "GreaterThan": "StrictGreaterThan", "NotEqual": "Unequality"}
